@@ -65,6 +65,11 @@ fn type_of_id(id: &str) -> Option<ParamType> {
         return Some(ParamType::Special(SpecialParam::Zero));
     }
     if id.starts_with(|c: char| c.is_ascii_digit()) {
+        // Check the characters first: the overflow of a long digit sequence
+        // would be reported before a non-digit character after it is seen.
+        if !id.chars().all(|c| c.is_ascii_digit()) {
+            return None;
+        }
         return match id.parse() {
             Ok(index) => Some(ParamType::Positional(index)),
             Err(e) => match e.kind() {
@@ -361,6 +366,20 @@ mod tests {
         let result = lexer.braced_param(0).now_or_never().unwrap();
         let param = result.unwrap().unwrap();
         assert_eq!(param.param.r#type, ParamType::Positional(usize::MAX));
+    }
+
+    #[test]
+    fn lexer_braced_param_positional_overflow_with_non_digit() {
+        let mut lexer = Lexer::with_code("${9999999999999999999999999999999999999999n}");
+        let mut lexer = WordLexer {
+            lexer: &mut lexer,
+            context: WordContext::Word,
+        };
+        lexer.peek_char().now_or_never().unwrap().unwrap();
+        lexer.consume_char();
+
+        let e = lexer.braced_param(0).now_or_never().unwrap().unwrap_err();
+        assert_eq!(e.cause, ErrorCause::Syntax(SyntaxError::InvalidParam));
     }
 
     #[test]
